@@ -168,6 +168,21 @@ def list_harnesses(prop):
     return jobs, meta
 
 
+def native_harness_names(propmod):
+    """the HARNESSES list of a property module, obtained by importing it under CPython"""
+    env = dict(os.environ)
+    repo_src = os.environ.get("PYVC_REPO_SRC", "/repo/src")
+    env["PYTHONPATH"] = VERIF + os.pathsep + repo_src
+    env["PYTHONDONTWRITEBYTECODE"] = "1"
+    py = os.environ.get("PYVC_NATIVE_PYTHON", "/venv/bin/python")
+    code = "import json, importlib; m = importlib.import_module('contracts.%s'); print(json.dumps([[f.__module__, f.__name__] for f in m.HARNESSES]))" % propmod
+    try:
+        p = subprocess.run([py, "-c", code], capture_output=True, text=True, timeout=120, env=env, cwd=VERIF)
+        return [tuple(x) for x in json.loads(p.stdout.strip().splitlines()[-1])]
+    except Exception:  # noqa: BLE001
+        return None
+
+
 def native_replay(modname, fname, replay_path):
     env = dict(os.environ)
     repo_src = os.environ.get("PYVC_REPO_SRC", "/repo/src")
@@ -224,11 +239,32 @@ def main(argv=None):
         "max_paths": 30000 if tier == "quick" else 200000,
         "cvc5_sample": 0.0 if tier == "quick" else 0.004,
     }
+    load_problem = None
     try:
         jobs, meta = list_harnesses(prop)
+    except OutsideSubset as exc:
+        load_problem = f"{exc}"
     except VCError as exc:
         print(f"CHECKER-ERROR property={prop} {type(exc).__name__}: {exc}")
         return 3
+    except Exception as exc:  # noqa: BLE001 - e.g. an exception the interpreted module raised while loading
+        load_problem = f"{type(exc).__name__}: {exc}"
+    if load_problem is not None:
+        # the repository's modules themselves can no longer be loaded by the interpreter (a
+        # construct outside its subset at import time): nothing is proved, every harness
+        # runs as its bounded stand-in on the real package
+        names = native_harness_names(prop.lower())
+        if names is None:
+            print(f"CHECKER-ERROR property={prop} the modules under verification cannot be loaded ({load_problem}) and the harness list could not be obtained natively")
+            return 3
+        jobs = names
+        meta = {"under_contract": [], "assumed_contracts": [], "assumptions": [], "expect_covers": {}, "level": "other", "bounded": [], "explanation": "", "relevant": [], "crosscheck": []}
+        results = [
+            {"harness": f"{m}.{f}", "checks": [], "covers": [], "notes": [], "paths": 0, "aborted": 0, "secs": 0.0, "error": f"outside-subset: the code under verification cannot be loaded by the interpreter ({load_problem})"}
+            for (m, f) in jobs
+            if not f.startswith("canary_")
+        ]
+        return report(prop, tier, seed, t0, results, meta, args)
     if args.only:
         jobs = [j for j in jobs if args.only in j[1]]
     propmod = prop.lower()
